@@ -5,6 +5,7 @@
 // inside a case: iterative preemption bounding PB = 0..bound (+ optional spurious wake-up budget),
 // stateless DFS with visited-state pruning; every execution builds a fresh assembler and job.
 #include <verif.hpp>
+#include <sched.h>
 #include <vsched.h>
 #include <explore.hpp>
 #include "c17_common.hpp"
@@ -93,6 +94,7 @@ namespace
     bool ns, nc;
     int repeats;
     int pb, sb;     // preemption / spurious bound to iterate up to
+    uint64_t max_exec = 0;
     std::string str() const
     {
       std::ostringstream o;
@@ -226,6 +228,9 @@ namespace
       if(sb > 0 && pb < cfg.pb) continue; // spurious wake-ups only on top of the full preemption bound
       vsched::Explorer ex;
       ex.preempt_bound = pb; ex.spurious_bound = sb;
+      ex.max_executions = cfg.max_exec;
+      const double t_end = c._deadline;
+      ex.stop = [&c, t_end]() { return t_end > 0.0 && c.now() > t_end; };
       g_dead.pb = pb;
       bool determinism_checked = false;
       std::string failure;
@@ -258,7 +263,7 @@ namespace
       c.count("pruned_at_visited_state", ex.stats.pruned);
       c.maxi("decisions_per_execution", ex.stats.max_decisions);
       c.maxi("preemption_bound_completed", uint64_t(pb));
-      if(ex.stats.capped) c.capped("max_executions");
+      if(ex.stats.capped) { c.capped("executions-or-deadline PB=" + std::to_string(pb)); }
       if(c.replaying)
         printf("  PB=%d SB=%d workers=%zu executions=%llu states=%llu transitions=%llu pruned=%llu max_decisions=%llu\n", pb, sb, workers,
           (unsigned long long)ex.stats.executions, (unsigned long long)ex.stats.states, (unsigned long long)ex.stats.transitions,
@@ -277,7 +282,7 @@ namespace
         }
         break;
       }
-      if(c.cut()) break;
+      if(c.cut() || ex.stats.capped) break;
     }
     c.outcome("workers=" + std::to_string(workers));
     c.maxi("workers", workers);
@@ -313,6 +318,14 @@ int main(int argc, char** argv)
   return verif::run(spec, argc, argv, [&](verif::Ctx& c)
   {
     const bool T = c.thorough;
+    // all threads of one explorer process share one core: hand-offs between the (serialised) threads are then
+    // plain context switches instead of cross-core wake-ups (measured ~20x faster)
+    {
+      cpu_set_t set; CPU_ZERO(&set);
+      long ncpu = sysconf(_SC_NPROCESSORS_ONLN); if(ncpu < 1) ncpu = 1;
+      CPU_SET(int(c._me % ncpu), &set);
+      sched_setaffinity(0, sizeof(set), &set);
+    }
     std::vector<Cfg> cfgs;
     auto add = [&](MeshCfg m, int pbmax_small, int pbmax_large)
     {
@@ -332,6 +345,7 @@ int main(int argc, char** argv)
           cf.pb = small ? pbmax_small : pbmax_large;
           cf.sb = (small && n <= 6 && w >= 2 && w <= 3 && rep == 1) ? 1 : 0;
           if(rep == 2) cf.pb = std::min(cf.pb, 1);
+          cf.max_exec = T ? 4000000u : 400000u;
           cfgs.push_back(cf);
         }
       }
@@ -354,7 +368,9 @@ int main(int argc, char** argv)
     {
       if(!c.want()) continue;
       c.desc([&]{ return cf.str(); });
+      const double t_case = c.now();
       run_cfg(c, cf);
+      if(c.now() - t_case > 3.0) fprintf(stderr, "SLOW %.1fs %s\n", c.now() - t_case, cf.str().c_str());
     }
   });
 }
